@@ -114,6 +114,11 @@ type Options struct {
 	ReaderObs bool // observe through GetReader as well as Get
 	ObsAutoOnly bool // observe through the autocommit actor only
 	NoObs    bool // no observation after steps (the caller observes itself)
+	// OpenFn replaces dbh.Open (the gRPC tier starts a server and returns the external client);
+	// UnknownCtx builds the context naming a never-issued transaction for that client.
+	OpenFn     func(spec dbh.Spec) (*dbh.Inst, error)
+	UnknownCtx func(ctx context.Context, txId string) context.Context
+	Free       bool // run without the scheduler (real goroutines, real time)
 	OnStart  func(r *Runner, op Op) // before the operation is issued
 	OnAck    func(r *Runner, op Op) // right after the operation returned, before background work settles
 	Epilogue func(r *Runner) *Mismatch
@@ -153,6 +158,9 @@ func (r *Runner) store(actor int) (fs_db.Store, context.Context) {
 	case actor == model.Auto:
 		return r.In.DB, r.ctx
 	case actor == Unknown:
+		if r.Opt.UnknownCtx != nil {
+			return r.In.DB, r.Opt.UnknownCtx(r.ctx, unknownTx)
+		}
 		return r.In.DB, imodel.StoreTxId(r.ctx, unknownTx)
 	}
 	return r.Tx[actor], r.ctx
@@ -300,7 +308,7 @@ func (r *Runner) apply(op Op) *Mismatch {
 		if op.Kind == Restart {
 			dbh.NewProcess()
 		}
-		in, err := dbh.Open(r.Opt.Spec)
+		in, err := r.open()
 		if err != nil {
 			return r.mism(op, "Open failed: "+dbh.ShortErr(err), "seq|Open|exp=nil,obs=error")
 		}
@@ -324,6 +332,13 @@ func (r *Runner) apply(op Op) *Mismatch {
 		}
 	}
 	return nil
+}
+
+func (r *Runner) open() (*dbh.Inst, error) {
+	if r.Opt.OpenFn != nil {
+		return r.Opt.OpenFn(r.Opt.Spec)
+	}
+	return dbh.Open(r.Opt.Spec)
 }
 
 func (r *Runner) expectBytes(v model.Val) []byte { return dbh.Content(v.ID, r.Lens[v.ID]) }
@@ -499,12 +514,13 @@ func Run(opt Options, hist []Op) (res *Result) {
 	res = &Result{}
 	vrt.SetBranching(false)
 	dbh.FreshWorld()
-	in, err := dbh.Open(opt.Spec)
+	r := &Runner{Opt: opt}
+	in, err := r.open()
 	if err != nil {
 		res.Infra = "open: " + err.Error()
 		return
 	}
-	r := &Runner{Opt: opt, In: in, M: model.New(opt.Slots), Tx: make([]fs_db.Tx, opt.Slots), Lens: map[int]int{},
+	r = &Runner{Opt: opt, In: in, M: model.New(opt.Slots), Tx: make([]fs_db.Tx, opt.Slots), Lens: map[int]int{},
 		FPs: map[uint64]struct{}{}, ctx: context.Background(), Ended: map[int]string{}}
 	defer func() {
 		res.Steps, res.Obs, res.FPs = r.Step, r.Obs, r.FPs
